@@ -82,7 +82,8 @@ def gen_history(streams, tier, profile):
     # always end with an evaluation after the last change
     ops.append({"op": "eval", "entry": hrng.choice(gen.entries(cur)), "style": hrng.choice(styles)})
     loads_after()
-    return {"prog": prog, "feat": feat, "store": store, "ops": ops, "options": []}
+    loc = cfg.choice(profile.get("locations", ["package"]))
+    return {"prog": prog, "feat": feat, "store": store, "ops": ops, "options": [], "location": loc}
 
 
 def final_prog(case):
@@ -139,6 +140,10 @@ def shrink_history(case):
             continue
         c = copy.deepcopy(case)
         del c["prog"]["vars"][v]
+        yield c
+    if case.get("location", "package") != "package":
+        c = copy.deepcopy(case)
+        c["location"] = "package"
         yield c
     if case["store"] != {"kind": "local"} and case["store"]["kind"] != "memory":
         c = copy.deepcopy(case)
@@ -214,6 +219,8 @@ def feature_tags(case):
         t.add("multi-module")
     if len(prog["pkg"]) > 1:
         t.add("nested-package")
+    if case.get("location", "package") != "package":
+        t.add("location:" + case["location"])
     st = case["store"]
     t.add("store:" + st["kind"] + ("+cache" if st.get("cache") else ""))
     for op in case["ops"]:
